@@ -25,7 +25,7 @@ impl Property for C03 {
         "C03"
     }
     fn rule(&self) -> &'static str {
-        "profile `attribution`: 2-8 output-capable 64-bit signals (outputs and bidirectionals interleaved with inputs), 0-2 virtual signals, loop-free rows (some with C), `let` statements binding variables named like output-capable signals in a quarter of the positions, driver layout = random subset in random order, per-call values from a wide palette (arbitrary 64-bit, boundary, small, Z, X), expected entries drawn to agree with what the script returns in that call in about half of the entries and to disagree / be X / be Z otherwise. A row that a virtual signal turns into an error item (it read Z/X) does not end the run: the caller goes on and the rows after it are checked the same way. Oracle: for every checked row, entry.output == what the recording driver returned for that signal in that row's call (X if not in the layout); check() by an independent 3x3 table; is_checked() iff expected != X; failing_outputs() == exactly the entries that do not pass. Non-trivial: layout is a proper subset or non-identity permutation, >= 2 supplied outputs differ in some call, both verdicts occur; distinct by source + signals + driver."
+        "profile `attribution`: 2-8 output-capable 64-bit signals (outputs and bidirectionals interleaved with inputs), 0-2 virtual signals, loop-free rows (some with C), `let` statements binding variables named like output-capable signals in a quarter of the positions, driver layout = random subset in random order, per-call values from a wide palette (arbitrary 64-bit, boundary, small, Z, X), expected entries drawn to agree with what the script returns in that call in about half of the entries and to disagree / be X / be Z otherwise. In a quarter of the cases the driver fails on one call (the caller goes on; an item that is a checked row by its position must report its outputs). A row that a virtual signal turns into an error item (it read Z/X) does not end the run: the caller goes on and the rows after it are checked the same way. Oracle: for every checked row, entry.output == what the recording driver returned for that signal in that row's call (X if not in the layout); check() by an independent 3x3 table; is_checked() iff expected != X; failing_outputs() == exactly the entries that do not pass. Non-trivial: layout is a proper subset or non-identity permutation, >= 2 supplied outputs differ in some call, both verdicts occur; distinct by source + signals + driver."
     }
     fn cases(&self, tier: Tier) -> u64 {
         match tier {
@@ -37,7 +37,7 @@ impl Property for C03 {
         [300, 8, 60]
     }
     fn required_classes(&self) -> Vec<&'static str> {
-        vec!["layout-subset", "layout-permuted", "output-Z", "output-X", "expected-Z", "pass", "fail", "Z-matches-Z", "X-output-vs-number", "virtual", "bidirectional", "supplied-output-not-in-header", "variable-named-like-output", "checked-row-after-error-item"]
+        vec!["layout-subset", "layout-permuted", "output-Z", "output-X", "expected-Z", "pass", "fail", "Z-matches-Z", "X-output-vs-number", "virtual", "bidirectional", "supplied-output-not-in-header", "variable-named-like-output", "checked-row-after-error-item", "row-after-driver-failure"]
     }
     fn run(&self, s: &Streams) -> CaseOut {
         let mut out = CaseOut::new();
@@ -95,6 +95,9 @@ impl Property for C03 {
         let nrows = 1 + ch.upto(6);
         let mut read_calls = 1usize;
         let mut shadowing = false;
+        // per item (in order): must it be a checked row? (every row without C; the third item
+        // of a row with C)
+        let mut item_checked: Vec<bool> = vec![];
         for id in 0..nrows {
             // a variable named like an output-capable signal: the reported output is still the
             // driver's, and a virtual signal still reads the device
@@ -145,7 +148,17 @@ impl Property for C03 {
                 es.push(e);
             }
             stmts.push(Stmt::Row(id, es));
+            if has_c {
+                item_checked.extend([false, false, true]);
+            } else {
+                item_checked.push(true);
+            }
             read_calls = call + 1;
+        }
+        // in a quarter of the cases the driver fails on one call (a mid-clock write, or a checked
+        // row's call); the caller goes on, and every later item is what its position says
+        if dch.chance(1, 4) {
+            spec.fail_at = Some(1 + dch.upto(item_checked.len()));
         }
         let prog = Program { header, stmts };
         let text = canonical(&prog).text;
@@ -166,7 +179,7 @@ impl Property for C03 {
         let Some(tc) = load_wellformed(&mut out, "c03", &text, &sigs) else {
             return out;
         };
-        let real = run_real(&tc, &sigs, &spec, &RunOpts { max_next: 200, continue_after_error: true, ..Default::default() });
+        let real = run_real(&tc, &sigs, &spec, &RunOpts { max_next: 200, continue_after_error: true, continue_after_driver_error: true, ..Default::default() });
         if let Some(c) = &real.ctor {
             match c {
                 RealItem::Panic(p) => out.fail(p.key(), format!("constructor panicked: {p}")),
@@ -179,6 +192,7 @@ impl Property for C03 {
         let mut differ = false;
         let mut checked_rows = 0;
         let mut seen_error = false;
+        let mut seen_driver_failure = false;
         for (k, item) in real.items.iter().enumerate() {
             let row = match item {
                 RealItem::Row(r) => r,
@@ -194,12 +208,25 @@ impl Property for C03 {
                     seen_error = true;
                     continue;
                 }
+                RealItem::DriverErr(_) if spec.fail_at == Some(k + 1) => {
+                    seen_driver_failure = true;
+                    continue;
+                }
                 o => {
                     out.fail("c03:unexpected-error", o.short());
                     return out;
                 }
             };
+            out.class_if(seen_driver_failure, "row-after-driver-failure");
             if row.outputs.is_empty() {
+                // a mid-clock item - if its position says so
+                if item_checked.get(k).copied().unwrap_or(false) {
+                    out.fail(
+                        "c03:checked-row-without-outputs",
+                        format!("item {k} is a checked row by its position (a row without C, or the third item of a clock triple) but reports no outputs at all: nothing is compared, nothing can fail"),
+                    );
+                    return out;
+                }
                 continue;
             }
             checked_rows += 1;
